@@ -35,6 +35,8 @@ func genValueList(r *Rng, maxN int) ([]string, []float64) {
 			vals[i] = base
 		case mode <= 3: // few distinct levels
 			vals[i] = float64(r.Intn(3))
+		case mode == 5 && n <= 12: // very large magnitudes (finite, far from overflow): the order is still the order of the values
+			vals[i] = float64(r.Intn(7)-3) * []float64{1e11, 2.5e12, 1e15}[r.Intn(3)]
 		case mode == 4: // coincide only after 1e-8 rounding
 			vals[i] = base + float64(r.Intn(3)-1)*2e-9
 		default:
